@@ -12,6 +12,8 @@ def signature(msg, case_lines):
     d = re.search(r"dual=(\d)", msg.split(" ev=[")[0]) or re.search(r"dual=(\d)", hdr)
     if kind == "af-optimistic-level-eq-depth-before-first-push-edge":   # known corner, one signature for all variants
         return "kind:" + kind
+    if kind == "capacity-below-request":
+        return "kind:" + kind
     if kind == "gray-roundtrip" or kind.startswith("array-") or kind.startswith("trans-"):
         return "kind:" + kind
     return "kind:%s;dual:%s" % (kind, d.group(1) if d else "?")
